@@ -32,6 +32,28 @@ def standin_scrypt(password, salt):
     return hashlib.blake2b(salt + password, digest_size=32, key=b"skv-standin").digest()
 
 
+def deterministic_signatures():
+    """ECDSA signing draws a fresh random number per signature, so two runs of one seed produced different transaction
+    bytes, block ids and nonces.  The harness makes every signature the deterministic (RFC 6979) one: still an ordinary valid
+    signature for the code under test, but a run is now a function of its seed (VERIF_NONDETERMINISTIC_SIGNATURES=1 turns
+    this off)."""
+    if os.environ.get("VERIF_NONDETERMINISTIC_SIGNATURES"):
+        return
+    import ecdsa
+    if getattr(ecdsa.SigningKey, "_skv_deterministic", False):
+        return
+    det = ecdsa.SigningKey.sign_deterministic
+
+    def sign(self, data, entropy=None, hashfunc=None, sigencode=ecdsa.util.sigencode_string, k=None, allow_truncate=True):
+        if k is not None or entropy is not None:
+            return _orig(self, data, entropy=entropy, hashfunc=hashfunc, sigencode=sigencode, k=k, allow_truncate=allow_truncate)
+        return det(self, data, hashfunc=hashfunc, sigencode=sigencode)
+    _orig = ecdsa.SigningKey.sign
+    ecdsa.SigningKey.sign = sign
+    ecdsa.SigningKey._skv_deterministic = True
+    _note("ECDSA signatures made by the workload are the deterministic RFC 6979 ones, so that a run is reproducible from its seed")
+
+
 def boot(fake_scrypt=True, horizon_off=True, quiet=True):
     """import the real package with the substitutions; returns the consensus module"""
     repo_on_path()
@@ -46,6 +68,7 @@ def boot(fake_scrypt=True, horizon_off=True, quiet=True):
     finally:
         sys.stdout = _out
     assert os.path.abspath(consensus.__file__).startswith(os.path.abspath(REPO)), consensus.__file__
+    deterministic_signatures()
     if fake_scrypt:
         consensus.scrypt = standin_scrypt
         shash.scrypt = standin_scrypt
